@@ -150,7 +150,7 @@ def site_signature(sched):
 _REC_SCHEDULES = 6
 
 
-def race_candidates(case):
+def race_candidates(case, tags=None):
     """Sites worth pre-empting at, found by *running* the base: recording
     runs (default order, each sender first, a few seeded random walks) log
     every read / write of a field of the connection state with the thread and
@@ -181,6 +181,8 @@ def race_candidates(case):
             last[v[0]] = i
         by_attr = {}
         for vi, tid, name, kind in acc:
+            if tags is not None and name.split('.')[0] not in tags:
+                continue
             by_attr.setdefault(name, []).append((vi, tid, kind))
         for name, lst in by_attr.items():
             if len({t for _, t, _ in lst}) < 2 or \
